@@ -1021,6 +1021,9 @@ func presentRet(h *ssa.Function, d int) (bool, bool) {
 				if lf.Val == ov {
 					return true, true // hands the found flag on
 				}
+				if u, isU := lf.Val.(*ssa.UnOp); isU && u.Op == token.NOT && u.X == ov {
+					return false, true // `return !dup`
+				}
 			}
 			k, isK := lf.Val.(*ssa.Const)
 			if !isK || k.Value == nil {
